@@ -3,7 +3,37 @@
 
 use sst::SstMetadata;
 
-use super::{LsmTree, SError};
+use super::{LsmTree, SError, VersionRef};
+
+/// A callback run at named points inside tree operations (see `verif_point`); lets a harness
+/// interleave another thread's step at that point.
+static VERIF_POINT_HOOK: std::sync::Mutex<Option<Box<dyn Fn(&'static str) + Send>>> =
+    std::sync::Mutex::new(None);
+
+/// Install (or clear) the callback run by `verif_point`.
+pub fn verif_set_point_hook(hook: Option<Box<dyn Fn(&'static str) + Send>>) {
+    *VERIF_POINT_HOOK.lock().unwrap() = hook;
+}
+
+/// Named point inside a tree operation.  Does nothing unless a callback was installed.
+pub(crate) fn verif_point(name: &'static str) {
+    let hook = VERIF_POINT_HOOK.lock().unwrap();
+    if let Some(hook) = hook.as_ref() {
+        hook(name);
+    }
+}
+
+impl VersionRef<'_> {
+    /// The ssts (hex setsums) of the version this snapshot holds.
+    pub fn verif_setsums(&self) -> Vec<String> {
+        self.version.setsums().iter().map(|x| x.hexdigest()).collect()
+    }
+
+    /// `Arc::strong_count` of the version this snapshot holds.
+    pub fn verif_strong_count(&self) -> usize {
+        std::sync::Arc::strong_count(&self.version)
+    }
+}
 
 /// What the selector chose: levels and the input setsums (hex).
 #[derive(Clone, Debug)]
@@ -17,6 +47,23 @@ pub struct VerifCompaction {
 }
 
 impl LsmTree {
+    /// The reference counts (hex setsum, count), sorted.
+    pub fn verif_refs(&self) -> Vec<(String, u64)> {
+        let mut refs: Vec<(String, u64)> = self
+            .references
+            .verif_counts()
+            .into_iter()
+            .map(|(k, v)| (k.hexdigest(), v))
+            .collect();
+        refs.sort();
+        refs
+    }
+
+    /// Take a snapshot exactly as readers do; dropping it releases it as readers do.
+    pub fn verif_snapshot(&self) -> VersionRef<'_> {
+        self.take_snapshot()
+    }
+
     /// The current version, level by level.
     pub fn verif_dump(&self) -> Vec<(usize, SstMetadata)> {
         let version = self.take_snapshot();
